@@ -140,7 +140,9 @@ impl NetcodeServer {
             connect_key,
             max_clients: config.max_clients,
             challenge_sequence: 0,
-            global_sequence: 0,
+            // Challenge and denied packets are sealed with the connect token's server to client key, the same key
+            // the session's own counter (starting at 0) is used with afterwards: keep the two nonce spaces apart
+            global_sequence: 1 << 63,
             challenge_key,
             public_addresses: config.public_addresses,
             current_time: config.current_time,
